@@ -45,7 +45,7 @@ def families(tier, seed):
     return out
 
 
-def ppci_run(case, suffix):
+def ppci_run(case, suffix, budget=30):
     """-> ('rejected', msg) | ('internal', exc) | {vi: ('ok', ret, mem, trace) | ('undef'|..., msg)}"""
     from ppci.api import get_arch
     from ppci.lang.c import c_to_ir, COptions
@@ -54,12 +54,16 @@ def ppci_run(case, suffix):
     src = case["src"].replace("@", suffix)
     from vf.core import cpu_limit, CpuTimeout
     try:
-        with cpu_limit(10):
+        with cpu_limit(budget):
             m = c_to_ir(io.StringIO(src), get_arch("x86_64"), COptions())
     except CompilerError as e:
         return ("rejected", str(e)[:100])
     except CpuTimeout:
-        return ("internal", TimeoutError("front end did not finish within 10 CPU-seconds"))
+        if budget == 30:
+            # a watchdog expiry must reproduce before it is believed (the CPU-time accounting of this VM has tripped a 10 s budget on a
+            # one-line unit under heavy load): compile the unit again with a budget four times as large
+            return ppci_run(case, suffix, budget=120)
+        return ("internal", TimeoutError("front end did not finish within 120 CPU-seconds (second attempt; the first was stopped after 30)"))
     except Exception as e:  # noqa
         return ("internal", e)
     fname = case["fname"].replace("@", suffix)
